@@ -9,6 +9,8 @@ use tokio::io::{self, AsyncRead};
 
 use self::{bins::read_bins, intervals::read_intervals, metadata::read_metadata};
 
+const MAX_PREALLOCATED_LEN: usize = 1 << 12;
+
 pub(super) async fn read_reference_sequences<R>(
     reader: &mut R,
     reference_sequence_count: usize,
@@ -16,7 +18,10 @@ pub(super) async fn read_reference_sequences<R>(
 where
     R: AsyncRead + Unpin,
 {
-    let mut reference_sequences = Vec::with_capacity(reference_sequence_count);
+    // The count is read from the input and is not yet validated, i.e., only a limited capacity is
+    // preallocated, and the collection grows as entries are read.
+    let mut reference_sequences =
+        Vec::with_capacity(reference_sequence_count.min(MAX_PREALLOCATED_LEN));
 
     for _ in 0..reference_sequence_count {
         let reference_sequence = read_reference_sequence(reader).await?;
